@@ -6,26 +6,26 @@ HERE = os.path.dirname(os.path.dirname(os.path.abspath(__file__)))
 
 # id: (built?, level, technique, text, note, design_ref)
 P = {
- "C01": (False, "exploration", "metamorphic + ground-truth monitor over I/O segmentation schedules", "", "", "6/C01"),
- "C02": (False, "exploration", "strict wire-parser oracle on emitted request heads over buffer-size schedules", "", "", "6/C02"),
+ "C01": (True, "exploration", "metamorphic + ground-truth monitor over I/O segmentation schedules", "Chains of 1..3 back-to-back exchanges are rendered from structured descriptions (so every length, payload and field is known), run one-shot and then under seeded schedules of head/body/read buffer sizes and arrival slicing (1-byte, 0..3 bytes, boundary-biased, explicit every-single-cut / every-pair-of-cuts lists) with read-only queries interleaved; every run is compared with ground truth and the consumed count must equal the exact message length, the next exchange starting where the previous stopped. Held-on-observed; schedules are sampled, not enumerated, except for the cut workload.", "trusted: the exchange model (model.rs), strict dechunker; give-up timing of Expect is part of the scenario, not of the schedule", "6/C01"),
+ "C02": (True, "exploration", "strict wire-parser oracle on emitted request heads over buffer-size schedules", "Random absolute-URI requests with up to 60+60 headers (repeated names, non-UTF-8 values), explicit/derived Host, caller/default framing, despite-method, at redirect depth 0..3: the emitted head is parsed by an independent strict parser and compared with the model; the framing header is cross-checked against the body writer by sending a real body byte; then the same request is written under buffer-size schedules aimed at every line length -1/0/+1 and each call is judged (whole lines, overflow exactly when the next line does not fit, nothing after completion). Flow and Call APIs.", "trusted: strict head parser (wire.rs), the http crate's HeaderMap iteration order for the original headers; '?q' and '/?q' both accepted for an empty path", "6/C02"),
  "C03": (True, "exploration", "reference-model monitor on every chunked body write; exhaustive short histories + random",
          "Every call of the chunked request-body writer is checked online against a reference model (strict chunk decoder, consumed-input shadow, terminator/finished state). All histories of length 3 (quick) / 4 (thorough) over inputs {0,1,2,5,6,7} x outputs 0..=12 are enumerated on both APIs, plus seeded random histories with inputs beyond one 10 KiB chunk. Held-on-observed only; exhaustive within that alphabet.",
          "trusted: my strict decoder (wire.rs), the http crate's request builder; an Err(OutputOverflow) for buffers < 6 bytes is tolerated", "6/C03"),
  "C04": (True, "exploration", "countdown reference model monitored over random write/direct-write histories",
          "Random histories of write / empty write / consume_direct_write / overshoot attempts are replayed against a countdown model for N swept over 0..=70000 and u32/u64 extremes; every call result, every output byte and the finished flag are compared online.",
          "trusted: the model (a counter); refused calls are judged side-effect free through the model staying in agreement afterwards", "6/C04"),
- "C05": (False, "exploration", "ground-truth-by-construction oracle over every prefix of generated heads (+ Miri/ASan lane)", "", "", "6/C05"),
+ "C05": (True, "exploration", "ground-truth-by-construction oracle over every prefix of generated heads (+ Miri/ASan lane)", "Well-formed heads are rendered from a structure and every prefix is offered to a fresh flow (all prefixes for heads <= 700 bytes and for every 3xx head cut after its Location line; token boundaries +-2 and windows otherwise; all prefixes in the thorough tier): strict prefixes must be need-more with nothing consumed, the full head (+ arbitrary tail) must be returned exactly (Flow, Call, bare parser, growing window); 126..200-field heads probe the limit. The PartialRedirect hook proves the fallback path was not taken. Thorough adds a Miri and an ASan lane over a slice.", "trusted: the head renderer; the harness never enables allow_partial_redirect", "6/C05"),
  "C06": (True, "exploration", "exhaustive decision-table monitor against an RFC 9112 reference rule", "The whole decision table is executed: 9 methods x statuses 101..=999 x response version x 11 Content-Length shapes x 8 Transfer-Encoding shapes through the Flow API (1.4 M real heads with a body in the expected framing and a following response), and a 14-status table through the Call API to separate no-body from zero-length. Outcomes are compared with an independent restatement of RFC 9112 6.3. Exhaustive within that table; cells the statement leaves open are don't-care.", "trusted: wire::body_rule (my reading of the statement); don't-care cells listed in the evidence assumptions", "6/C06"),
- "C07": (False, "exploration", "generator-known coding vs decoder output under enumerated cut sets; decoder-transition hooks for coverage", "", "", "6/C07"),
- "C08": (False, "exploration", "reference min-of-three model over random read schedules with trailing bytes", "", "", "6/C08"),
- "C09": (False, "exploration", "typestate reference graph + hook invariant over random call histories with premature advances", "", "", "6/C09"),
+ "C07": (True, "exploration", "generator-known coding vs decoder output under enumerated cut sets; decoder-transition hooks for coverage", "Codings are rendered from a plan so payload, length and chunk map are known; every coding <= 14 (quick) / 18 (thorough) bytes of a tiny grammar is delivered under ALL cut sets x three output patterns x boundary stop on/off; grammar codings under every single cut and every pair of cuts within +-3 of each token boundary; random codings beyond. After every read: payload equality, no byte beyond the coding consumed (a next message follows), ended <=> final CRLF consumed, no read across two chunks with boundary stop. Floors require all seven decoder transitions (hook) and every token-class cut.", "assumes size lines <= 20 bytes (the crate's sanity limit); trusted: the coding renderer", "6/C07"),
+ "C08": (True, "exploration", "reference min-of-three model over random read schedules with trailing bytes", "Content-Length bodies for N swept over 1..=70000 plus u32/u64 extremes, followed by the head of a next response, are read under random arrival and buffer schedules; each read must move exactly min(window, space, remaining) unchanged bytes, never beyond N, complete exactly at N. Close-delimited bodies: all bytes pass, can_proceed at every point, leaving leads to Cleanup with must-close.", "trusted: a counter model", "6/C08"),
+ "C09": (True, "exploration", "typestate reference graph + hook invariant over random call histories with premature advances", "Random exchanges over the whole configuration menu are driven under schedules; visited states must equal the reference graph's path, the exchange must complete (C01's ground-truth checks), redirects are followed and the new flow used; then the same deterministic history is replayed to every step and an advance is attempted there: can_proceed() must equal proceed() succeeding, no panic; the in-crate hook asserts holder-variant/typestate agreement at every Flow::wrap. Floors require all 14 graph edges.", "trusted: exchange model; a redirected request that is refused because of an inherited Transfer-Encoding header is not judged (no given property pins it)", "6/C09"),
  "C10": (True, "exploration", "exhaustive close-condition product vs disjunction model", "All 32 close-condition vectors are realised by an exhaustive product of request version/Connection, Expect handshake outcome, response version/status/framing/Connection, each run as a complete exchange to Cleanup (through Redirect for 3xx), one-shot and under seeded random I/O schedules; verdict and reason at both exit states are compared with the disjunction. Floors require every vector on every feasible exit path.", "trusted: the exchange model (model.rs); reason texts are matched by keyword, unknown wording is not judged", "6/C10"),
- "C11": (False, "exploration", "handshake reference model over every look/give-up prefix, runs continued to completion", "", "", "6/C11"),
- "C12": (False, "fault_enumeration", "hostile byte enumeration + grammar mutations under panic/step-budget/copy-subsequence monitors (+ Miri/ASan lane)", "", "", "6/C12"),
- "C13": (False, "exploration", "tagged-header provenance monitor over redirect chains", "", "", "6/C13"),
- "C14": (False, "exploration", "independent RFC 3986 resolver as oracle over redirect chains", "", "", "6/C14"),
+ "C11": (True, "exploration", "handshake reference model over every look/give-up prefix, runs continued to completion", "Expect requests against servers whose first head is a bare 100 (seven reason phrases) or any other response (bare or with fields); the caller looks at a chosen prefix (every prefix class) and decides or gives up; every look is judged by the handshake model, and the run is continued to Cleanup under a random schedule: edge out of Await100, late 100 skipped exactly once by exactly its length, refusal returned as that very response, body sent iff not refused, must-close after refusal, plus C01's checks.", "100-with-fields not generated; verdict left open when the caller gives up while a refusal is partly visible", "6/C11"),
+ "C12": (True, "fault_enumeration", "hostile byte enumeration + grammar mutations under panic/step-budget/copy-subsequence monitors (+ Miri/ASan lane)", "Fault enumeration: every string over an 11-symbol protocol alphabet up to length 5 (quick) / 6 (thorough) and every sequence of up to 3 / 4 protocol tokens into each server-facing call in each framing, whole and as growing window; every byte value at ten sensitive positions; grammar-aware mutations of valid exchanges (14 kinds incl. 64 KiB names, >128 fields, oversize numbers) under random schedules; five close conditions at once. Monitors: panic capture, loop tick budget per call (bounded 'hang'), count bounds, output is an in-order copy of consumed input, advancing afterwards does not panic. Thorough adds Miri and ASan lanes (dependency unsafe code reached by hostile bytes).", "caller follows the documented protocol; 'hang' = more than 4*(in+out)+64 loop iterations in one call", "6/C12"),
+ "C13": (True, "exploration", "tagged-header provenance monitor over redirect chains", "Redirect chains of 1..4 hops with tagged Authorization/Cookie/Content-Length on the original request, Locations of every kind mixing three hosts, ports and http/https both ways, both policies, all redirect statuses; every redirected request is serialised and strictly parsed: original Cookie/Content-Length never present, original Authorization only if policy, original host and scheme rule allow (target from an independent RFC 3986 resolver). Floors require same-host/downgrade/upgrade/other-host cells at hops 1..4.", "only the 'present only if' direction is judged; lower-case hosts", "6/C13"),
+ "C14": (True, "exploration", "independent RFC 3986 resolver as oracle over redirect chains", "Chains of 1..4 redirects over a grammar on which RFC 3986 and WHATWG agree; the new flow's URI is compared (after scheme-based normalisation) with an independent RFC 3986 section 5.2 resolver applied to the current hop's URI; last of several Location fields; fragment dropped; request line and Host checked on the wire at every hop; missing/non-textual Location must be an error; a hostile list gets the weak oracle (no panic, no foreign origin).", "strict oracle only on the clean grammar; resolver validated on the RFC 3986 5.4 examples (cargo test in harness)", "6/C14"),
  "C15": (True, "exploration", "exhaustive method x status table monitor", "The full table 9 methods x 300..=399 x 2 policies x 3 body shapes x request version is run as real exchanges; redirect-state entry, reported status, follow/not-follow and the new method are compared with the table of the statement. Exhaustive.", "trusted: wire::redirect_method restating the table", "6/C15"),
- "C16": (False, "exploration", "tagged-header wire monitor across redirect depth", "", "", "6/C16"),
+ "C16": (True, "exploration", "tagged-header wire monitor across redirect depth", "At redirect depth 0..3 under both policies, 0..60 tagged headers (cookie, authorization, connection, host, content-length where valid, ordinary names, non-UTF-8 values) are added in the prepare state at every depth while the original carries its own cookie/authorization/content-length; every request head is strictly parsed: each added pair on the wire, in order, ahead of the originals.", "restricted to requests C17 accepts", "6/C16"),
  "C17": (True, "exploration", "exhaustive request-validity product vs six-class model", "The product 5 versions x 9 methods x 5 Host shapes x 9 Content-Length shapes x 4 Transfer-Encoding shapes x despite x 3 APIs (48 600 cells) is written twice per cell and compared with the six-class model: reject = error twice and never ready, accept = bytes and ready. Exhaustive within the product.", "trusted: the six-class model; non-textual Host and without-body-constructor+framing-headers cells are don't-care", "6/C17"),
  "C18": (True, "exploration", "exhaustive sweep of n with a real write per n, strict decode of the wire",
          "For every n in 0..=3*10248+64 (enumerated) and random n up to 2^22 the advertised maximum is fed to a real write into an n-byte buffer; consumed must equal the advertised size, the bound and monotonicity are checked, the wire is strictly decoded.",
@@ -33,7 +33,7 @@ P = {
  "C19": (True, "exploration", "exhaustive (L,n) sweep with fresh flows + bounded whole-body loops, loop-tick budget hook",
          "consumed(L,n) is measured for every n in 6..=300 x L in 1..=320, around multiples of the chunk size, and random pairs; progress, dominance over the advertised maximum and monotonicity in L are asserted; whole-body loops with fixed buffers must finish within |body| iterations (bounded restatement of termination), with the in-crate loop tick hook enforcing a per-call step budget.",
          "liveness restated as bounded progress; a stuck process is caught by the step budget, never by wall clock", "6/C19"),
- "C20": (False, "exploration", "round-trip oracle over every prefix for N in {0,1,4,128} (+ Miri/ASan lane)", "", "", "6/C20"),
+ "C20": (True, "exploration", "round-trip oracle over every prefix for N in {0,1,4,128} (+ Miri/ASan lane)", "Request and response heads with 0..N+2 fields for N in {0,1,4,128} are rendered from a structure; complete parsers must round-trip (length, method/status, version, fields) within the limit, give HttpParseTooManyHeaders above it, and 'incomplete' on every strict prefix; the partial response parser must never fail on a prefix within the limit and only report fields whose whole line is inside the prefix, in order. Thorough adds Miri and ASan lanes.", "request target not checked (not part of the property)", "6/C20"),
 }
 
 def hook_commits():
